@@ -99,6 +99,8 @@ fn fam_empty_rows(r: &mut Rng) -> LinearModel {
 pub fn family(r: &mut Rng, i: usize) -> (LinearModel, &'static str) {
     if i % 16 == 15 { return (crate::props::c04::variable_free(r), "variable-free"); }
     if i % 5 == 4 { return (gen_lp::near_tied(r), "near-tied-large-coefficients"); }
+    if i % 10 == 3 { return (gen_lp::permuted_domain(r, i % 20 == 3), "permuted-domain-order"); }
+    if i % 20 == 7 { if let Some((lm, _)) = gen_lp::from_text(r) { return (lm, "text-pipeline-define-order"); } }
     match i % 8 {
         0 => (fam_free_face(r), "free-face"),
         1 => (fam_both_infeasible(r), "primal-dual-infeasible"),
